@@ -203,6 +203,40 @@ def _check_model(ctx, cls_name, pr, gam, toks, grids, outs, st, st_or, st_g, st_
                     mismatch = 'row %d term %d: model pdep %.12g vs %.12g' % (r, ti, pd_m[ti], pds[ti][r])
         if mismatch and not bad:
             ctx.disagree(st, sig, 'see detail', 'see detail', mismatch)
+        # ---------------- user-supplied meshes (meshgrid=True), in several memory layouts: the value at mesh position
+        # [i, j, ...] must be the term's partial dependence at the point (X0[i, j, ...], X1[i, j, ...], ...)
+        for ti, t in enumerate(tl):
+            if t.isintercept:
+                continue
+            subs = list(t._terms) if t.istensor else [t]
+            feats = [int(s_.feature) for s_ in subs]
+            if len(set(feats)) != len(feats) or any(s_._name == 'factor_term' for s_ in subs) or len(subs) > 3:
+                continue
+            if any(s_._name == 'spline_term' and (int(s_.spline_order) == 0 or s_.basis == 'cp') for s_ in subs):
+                continue
+            sizes = [3, 4, 2][:len(subs)]
+            axes = [np.linspace(float(min(s_.edge_knots_)) - 0.3 * (k_ == 0 and getattr(s_, 'spline_order', 1) >= 1), float(max(s_.edge_knots_)), sz)
+                    for k_, (s_, sz) in enumerate(zip(subs, sizes))]
+            mesh_ij = np.meshgrid(*axes, indexing='ij')
+            layouts = {'C': [np.ascontiguousarray(a) for a in mesh_ij],
+                       'F': [np.asfortranarray(a) for a in mesh_ij],
+                       'T-view': [np.ascontiguousarray(a.T).T for a in mesh_ij]}
+            pts = np.zeros((mesh_ij[0].size, pr.X.shape[1]))
+            for s_, a in zip(subs, mesh_ij):
+                pts[:, s_.feature] = a.ravel()
+            if getattr(t, 'by', None) is not None:
+                pts[:, t.by] = 1.0
+            ref = np.asarray(gam.partial_dependence(ti, X=pts)).reshape(mesh_ij[0].shape)
+            for lname, mesh in layouts.items():
+                msig = dict(cls=cls_name, tokens=toks, term=ti, layout=lname)
+                ctx.case(st_go, msig, nontrivial=True)
+                got = np.asarray(gam.partial_dependence(ti, X=tuple(mesh), meshgrid=True))
+                if got.shape != ref.shape or np.abs(got - ref).max() > 1e-9 * (1 + np.abs(ref).max()):
+                    ctx.fail(st_go, dict(kind='mesh', layout=lname, tensor=bool(t.istensor)), dict(cls=cls_name, tokens=toks, term=ti, layout=lname, axes=[a.tolist() for a in axes]),
+                             observed=dict(shape=list(got.shape), maxdiff=float(np.abs(got - ref).max()) if got.shape == ref.shape else None),
+                             expected='partial_dependence(term, X=mesh, meshgrid=True)[i, j, ..] = partial dependence at the mesh point (i, j, ..)',
+                             oracle='same points passed as a flat matrix')
+                    break
         # ---------------- grids
         for (ti, n) in grids:
             o = outs[pos]; pos += 1
